@@ -72,6 +72,16 @@ func (p *Prog) buildScript(asserts []*Term, getValues []string) string {
 			ufs[t.Head] = true
 		}
 	})
+	for id := range p.sortAxioms {
+		if ufs["sorted_"+id] {
+			ufs["sortPerm_"+id] = true
+		}
+	}
+	for id := range p.permAxioms {
+		if ufs["permuted_"+id] {
+			ufs["sortPerm_"+id] = true
+		}
+	}
 	var sb strings.Builder
 	sb.WriteString("(set-option :produce-models true)\n(set-logic ALL)\n")
 	sb.WriteString(p.w.Prelude())
@@ -129,6 +139,34 @@ func (p *Prog) axiomText(ufs map[string]bool) string {
 		fmt.Fprintf(&sb, "(assert (forall ((a %s) (b %s)) (! (= (len_%s (appendAll_%s a b)) (+ (len_%s a) (len_%s b))) :pattern ((appendAll_%s a b)))))\n", n, n, n, n, n, n, n)
 		fmt.Fprintf(&sb, "(assert (forall ((a %s) (b %s) (j Int)) (! (= (select (arr_%s (appendAll_%s a b)) j) (ite (< j (len_%s a)) (select (arr_%s a) j) (select (arr_%s b) (- j (len_%s a))))) :pattern ((select (arr_%s (appendAll_%s a b)) j)))))\n",
 			n, n, n, n, n, n, n, n, n, n)
+	}
+	for id, es := range p.sortAxioms {
+		fn, pf := "sorted_"+id, "sortPerm_"+id
+		if !ufs[fn] {
+			continue
+		}
+		as := "(Array Int " + es.S + ")"
+		// the result is a permutation of the input (every output slot comes from an input slot) ...
+		fmt.Fprintf(&sb, "(assert (forall ((a %s) (n Int) (j Int)) (! (=> (and (<= 0 j) (< j n)) (and (<= 0 (%s a n j)) (< (%s a n j) n) (= (select (%s a n) j) (select a (%s a n j))))) :pattern ((select (%s a n) j)))))\n", as, pf, pf, fn, pf, fn)
+		// ... in ascending order
+		lt := ""
+		switch es {
+		case SF64:
+			lt = "(or (fp.lt (select (%[2]s a n) j) (select (%[2]s a n) i)) (and (fp.isNaN (select (%[2]s a n) j)) (not (fp.isNaN (select (%[2]s a n) i)))))"
+		case SStr:
+			lt = "(gs.lt (select (%[2]s a n) j) (select (%[2]s a n) i))"
+		}
+		if lt != "" {
+			fmt.Fprintf(&sb, "(assert (forall ((a %s) (n Int) (i Int) (j Int)) (! (=> (and (<= 0 i) (< i j) (< j n)) (not "+lt+")) :pattern ((select (%[2]s a n) i) (select (%[2]s a n) j)))))\n", as, fn)
+		}
+	}
+	for id, es := range p.permAxioms {
+		fn, pf := "permuted_"+id, "sortPerm_"+id
+		if !ufs[fn] {
+			continue
+		}
+		as := "(Array Int " + es.S + ")"
+		fmt.Fprintf(&sb, "(assert (forall ((a %s) (n Int) (j Int)) (! (=> (and (<= 0 j) (< j n)) (and (<= 0 (%s a n j)) (< (%s a n j) n) (= (select (%s a n) j) (select a (%s a n j))))) :pattern ((select (%s a n) j)))))\n", as, pf, pf, fn, pf, fn)
 	}
 	for _, s := range p.w.slices {
 		sh := "shift_" + sortIdent(s.Elem)
